@@ -1803,15 +1803,20 @@ def evaluate__round(self: XPathFunction, context: ta.ContextType = None) \
 
     precision: int = self.get_argument(context, index=1, default=0, cls=int)
     try:
-        if precision < 0:
-            return type(arg)(round(arg, precision))  # type: ignore[call-overload, arg-type]
-
         number = decimal.Decimal(arg)
-        exponent = decimal.Decimal('1') / 10 ** precision
-        if number > 0:
-            return type(arg)(number.quantize(exponent, rounding='ROUND_HALF_UP'))
+        if precision < 0:
+            exponent = decimal.Decimal(1).scaleb(-precision)
         else:
-            return type(arg)(number.quantize(exponent, rounding='ROUND_HALF_DOWN'))
+            exponent = decimal.Decimal('1') / 10 ** precision
+
+        if number > 0:
+            number = number.quantize(exponent, rounding='ROUND_HALF_UP')
+        else:
+            number = number.quantize(exponent, rounding='ROUND_HALF_DOWN')
+
+        if precision < 0:
+            number = number.quantize(decimal.Decimal(1))
+        return type(arg)(number)  # type: ignore[call-overload, arg-type]
     except TypeError as err:
         if isinstance(context, XPathSchemaContext):
             return []
